@@ -260,16 +260,16 @@ GoodS(f) == f.cond = "NO_ERROR" /\ f.deliv = "DATA_COMPLETE"
 GoodEnd == /\ (cfg.indS.finished => Len(obs.finS) = NTx /\ \A i \in DOMAIN obs.finS : GoodS(obs.finS[i]))
            /\ (cfg.indD.finished => Len(obs.finD) = NTx /\ \A i \in DOMAIN obs.finD : GoodS(obs.finD[i]) /\ obs.finD[i].ok)
            /\ (cfg.mdOnly \/ FileOk(hd.fs))
-DoneIsGood == (Done /\ obs.kf = {}) => GoodEnd
+DoneIsGood == Done => GoodEnd
 \* C11: whatever happened to the earlier transactions on the same handlers (faults, cancellations, abandonment), a later
 \* transaction that the environment leaves alone ends like one on fresh handlers: successfully, with an identical file
-LastTxnGood == (Done /\ obs.kf = {} /\ obs.lastEnvTxn < NTx) =>
+LastTxnGood == (Done /\ obs.lastEnvTxn < NTx) =>
                  /\ (cfg.indS.finished => obs.finS # <<>> /\ GoodS(obs.finS[Len(obs.finS)]))
                  /\ (cfg.indD.finished => obs.finD # <<>> /\ GoodS(obs.finD[Len(obs.finD)]) /\ obs.finD[Len(obs.finD)].ok)
                  /\ (cfg.mdOnly \/ FileOk(hd.fs))
 Completes == <>Done
-\* ... unless a known finding was observed on the way (those runs are judged by the finding's own entry)
-CompletesKf == <>(Done \/ obs.kf # {})
+\* (kept under its old name: no finding is excluded any more - F01 was repaired)
+CompletesKf == <>Done
 \* C04: whatever happens, the handlers come to rest (a silent peer cannot hang a transaction) ...
 ComesToRest == <>[](hs.state = "IDLE" /\ hd.state = "IDLE")
 \* ... except in the waits the statement leaves unbounded: sender awaiting Finished after its EOF was acknowledged,
